@@ -37,6 +37,8 @@ def run():
         env = dict(os.environ)
         import hashlib
         env['CARGO_TARGET_DIR'] = os.path.join(VERIF, '.cache', 'decgrid-target-' + hashlib.sha1(os.path.abspath(REPO).encode()).hexdigest()[:8])
+        if os.environ.get('VERIF_SCRATCH_TARGET'):
+            env['CARGO_TARGET_DIR'] = os.path.join(os.environ['VERIF_SCRATCH_TARGET'], 'decgrid-target')
         env['CARGO_NET_OFFLINE'] = 'true'
         env.pop('RUSTUP_TOOLCHAIN', None)
         p = subprocess.run(['cargo', 'run', '--offline', '-q'], cwd=scratch, env=env, stdout=subprocess.PIPE, stderr=subprocess.PIPE, text=True)
